@@ -491,6 +491,8 @@ func RPCReadSector(ctx context.Context, t TransportClient, prices rhp4.HostPrice
 	var resp rhp4.RPCReadSectorResponse
 	if err := rhp4.ReadResponse(s, &resp); err != nil {
 		return RPCReadSectorResult{}, fmt.Errorf("failed to read response: %w", err)
+	} else if resp.DataLength != req.Length {
+		return RPCReadSectorResult{}, clientErrf("host returned %d bytes, expected %d", resp.DataLength, req.Length)
 	}
 
 	start := req.Offset / rhp4.LeafSize
